@@ -52,6 +52,25 @@ class Disk:
         self.files = {}
         self.texts = {}
         self.path_state = {}      # path -> 'directory' | 'readonly_dir' | 'unreadable' (persistent state of the cache *path*, not of bytes)
+        self.mtime_ns = {}        # grammar source files: modification time as stat() reports it (a knob: an edit may preserve it)
+        self.clock_ns = 1_700_000_000_000_000_000
+
+    def set_text(self, path, text, preserve_mtime=False):
+        """write a grammar source file; like cp -p / rsync -t / os.utime an edit may keep the old modification time"""
+        if self.texts.get(path) == text:
+            return
+        self.texts[path] = text
+        if not preserve_mtime or path not in self.mtime_ns:
+            self.clock_ns += 1_000_000_000
+            self.mtime_ns[path] = self.clock_ns
+
+    def stat_text(self, path):
+        import stat as _stat
+        t = self.texts[path]
+        m = self.mtime_ns.setdefault(path, self.clock_ns)
+        size = len(t.encode('utf8'))
+        return os.stat_result((_stat.S_IFREG | 0o644, hash(path) & 0xffff, 1, 1, 0, 0, size, m // 10 ** 9, m // 10 ** 9, m // 10 ** 9,
+                               m / 1e9, m / 1e9, m / 1e9, m, m, m))
 
     def snapshot(self):
         return {k: bytes(v.data) for k, v in self.files.items()}
@@ -158,6 +177,7 @@ class Proc:
         self.sched = sched
         self.oplog = []
         self.pending_short = None
+        self.hook = None                      # (op kind, callable): an environment event that happens INSIDE the lifetime, at that FS call
 
     # --- the fault engine: every FS operation passes through here
     def op(self, kind, handle=None, size=0):
@@ -171,6 +191,9 @@ class Proc:
                 raise SimCrash()
         self.n += 1
         self.oplog.append(kind)
+        if self.hook is not None and kind == self.hook[0]:
+            h, self.hook = self.hook, None
+            h[1]()
         f = self.faults.get(self.n)
         if self.pending_short is not None and kind == 'write':
             f, self.pending_short = self.pending_short, None
@@ -330,13 +353,39 @@ class _OsPathShim:
             return p in self._f.proc().disk.texts
         return os.path.exists(p)
 
+    def isfile(self, p):
+        if isinstance(p, str) and p.startswith(VROOT):
+            return p in self._f.proc().disk.texts
+        return os.path.isfile(p)
+
+    def getmtime(self, p):
+        if isinstance(p, str) and p.startswith(VROOT) and p in self._f.proc().disk.texts:
+            return self._f.proc().disk.stat_text(p).st_mtime
+        return os.path.getmtime(p)
+
+    def getsize(self, p):
+        if isinstance(p, str) and p.startswith(VROOT) and p in self._f.proc().disk.texts:
+            return self._f.proc().disk.stat_text(p).st_size
+        return os.path.getsize(p)
+
 
 class _OsShim:
     def __init__(self, facade):
+        self._f = facade
         self.path = _OsPathShim(facade)
 
     def __getattr__(self, k):
         return getattr(os, k)
+
+    def stat(self, p, *a, **kw):
+        if isinstance(p, str) and p.startswith(VROOT):
+            d = self._f.proc().disk
+            if p in d.texts:
+                return d.stat_text(p)
+            raise FileNotFoundError(_errno.ENOENT, os.strerror(_errno.ENOENT), p)
+        return os.stat(p, *a, **kw)
+
+    lstat = stat
 
 
 class _CachePathShim(_OsPathShim):
@@ -372,6 +421,18 @@ class _LarkOsShim:
 
     def remove(self, p, *a, **kw):
         return self._f.proc().remove(p)
+
+    def stat(self, p, *a, **kw):
+        d = self._f.proc().disk
+        if isinstance(p, str) and p in d.texts:
+            return d.stat_text(p)
+        if isinstance(p, str) and p.startswith(VROOT):
+            if p in d.files:
+                import stat as _stat
+                n = len(d.files[p].data)
+                return os.stat_result((_stat.S_IFREG | 0o644, 1, 1, 1, 0, 0, n, 0, 0, 0))
+            raise FileNotFoundError(_errno.ENOENT, os.strerror(_errno.ENOENT), p)
+        return os.stat(p, *a, **kw)
 
     unlink = remove
 
